@@ -1721,7 +1721,8 @@ void print_svalue (svalue_t * arg) {
         tell_object (command_giver, arg->u.string);
         break;
       case T_OBJECT:
-        sprintf (tbuf, "OBJ(/%s)", arg->u.ob->name);
+        /* an object name has up to MAX_OBJECT_NAME_SIZE - 1 bytes: as much as tbuf[] */
+        snprintf (tbuf, sizeof (tbuf), "OBJ(/%s)", arg->u.ob->name);
         tell_object (command_giver, tbuf);
         break;
       case T_NUMBER:
